@@ -9,7 +9,7 @@ import (
 	"verif/vlib"
 )
 
-var vfC02Cfg = &vfGenCfg{MaxOps: 28, TwoWallets: true, BadPass: false}
+var vfC02Cfg = &vfGenCfg{MaxOps: 28, TwoWallets: true, BadPass: false, Bulk: 10}
 
 var vfC02Spec = vlib.Spec[vfWProg]{
 	Prop: "C02", Name: "restart-vs-model",
